@@ -1,4 +1,5 @@
 import Gonuts.Lemmas.SpendExamples
+import Gonuts.Lemmas.Nut10Parse
 /-!
   C13 — HTLC locks (NUT-14).  Model: `Model.Spend` (the repaired code: F6 "always remove the matched key",
   F8 "AddWitnessHTLCToOutputs hex-decodes B_"); specification: `Spec.Spendable.spendableHTLC`.
@@ -132,5 +133,41 @@ example : addWitnessHTLC xEnv xSign [xBare 7] xSecret "ab" 1 = .err .helperTooMa
 def f6Secret : Secret := { kind := .htlc, data := xHash, tags := [["n_sigs", "2"], ["pubkeys", "K1"]] }
 example : verifyHTLC xEnv { secret := some f6Secret, msg := 7, witness := { jsonOk := true, signatures := [xSign 1 7, 912], preimage := "ab" } } f6Secret
     = .err .notEnoughSignatures := by decide
+
+/-! ## the TEXT of the secret (`nut10.DeserializeSecret`, `Model.Nut10Parse` over the JSON scanner of `Model.GoJson`)
+
+  `verifyProofs` enforces a lock only when `DeserializeSecret` succeeds with kind HTLC; whoever builds a locked output
+  chooses the text of the secret.  For EVERY text and every amount of JSON whitespace before and after it the secret is
+  read the same way, so the lock cannot be switched off (or on) by padding; and the kind is decided by the first array
+  element alone, compared with exactly "HTLC". -/
+
+theorem secret_text_whitespace_insignificant (w1 w2 s : String)
+    (h1 : ∀ c ∈ w1.toList, Model.GoJson.isWs c = true) (h2 : ∀ c ∈ w2.toList, Model.GoJson.isWs c = true) :
+    Model.Nut10Parse.parseSecret (w1 ++ s ++ w2) = Model.Nut10Parse.parseSecret s ∧
+    Model.Nut10Parse.lockKind (w1 ++ s ++ w2) = Model.Nut10Parse.lockKind s :=
+  ⟨Model.Nut10Parse.parseSecret_ws w1 w2 s h1 h2, Model.Nut10Parse.lockKind_ws w1 w2 s h1 h2⟩
+
+theorem htlc_kind_by_first_element (s : String) (p : Model.Nut10Parse.Parsed) (h : Model.Nut10Parse.parseSecret s = some p) :
+    ∃ k d rest ks, Model.GoJson.parse s = some (Model.GoJson.JV.arr (k :: d :: rest)) ∧ Model.GoJson.intoString "" k = some ks ∧
+      (p.kind = .htlc ↔ ks = "HTLC") := by
+  unfold Model.Nut10Parse.parseSecret at h
+  cases hv : Model.GoJson.parse s with
+  | none => simp [hv] at h
+  | some v =>
+    rw [hv] at h
+    obtain ⟨k, d, rest, ks, rfl, hk, hkind⟩ := Model.Nut10Parse.decodeSecret_kind h
+    exact ⟨k, d, rest, ks, rfl, hk, by rw [hkind]; exact Model.Nut10Parse.kindOf_htlc ks⟩
+
+/-- non-vacuity (kernel evaluation of the scanner on concrete texts): the library's spelling, padded, with an escaped
+    letter in the kind, other member order and member-name case — all read as the same HTLC secret; near misses of the
+    kind string are not locks; texts that are not JSON arrays of two elements are ordinary secrets. -/
+example : Model.Nut10Parse.parseSecret "[\"HTLC\", {\"nonce\":\"n\",\"data\":\"d\",\"tags\":[[\"sigflag\",\"SIG_ALL\"]]}]"
+    = some ⟨.htlc, "n", "d", [["sigflag", "SIG_ALL"]]⟩ := by decide
+example : Model.Nut10Parse.parseSecret " \n[ \"\\u0048TLC\" ,{\"Tags\":[[\"sigflag\",\"SIG_ALL\"]],\"x\":[1.5e3,{\"y\":null}],\"DATA\":\"d\",\"nonce\":\"\\u006e\"}, true ]\t"
+    = some ⟨.htlc, "n", "d", [["sigflag", "SIG_ALL"]]⟩ := by decide
+example : Model.Nut10Parse.lockKind "[\"htlc\",{}]" = .anyone ∧ Model.Nut10Parse.lockKind "[\"HTLC \",{}]" = .anyone ∧
+    Model.Nut10Parse.lockKind "[\"HTLC\"]" = .anyone ∧ Model.Nut10Parse.lockKind "{\"0\":\"HTLC\",\"1\":{}}" = .anyone ∧
+    Model.Nut10Parse.lockKind "[\"HTLC\",{\"data\":1}]" = .anyone ∧ Model.Nut10Parse.lockKind "[\"HTLC\",{}] x" = .anyone ∧
+    Model.Nut10Parse.lockKind "[\"HTLC\",{}]" = .htlc := by decide
 
 end Gonuts.Props.C13
